@@ -108,11 +108,11 @@ func entries() []entry {
 			tree: (func(t *ast.AST) string { sink = t.Format(ast.CompactStyle()); return "ok" })},
 		{name: "Scan", doc: "pkg/sql/security Scanner.Scan(tree)", needAST: true,
 			tree: (func(t *ast.AST) string { sink = security.NewScanner().Scan(t); return "ok" })},
-		{name: "ScanSQL", doc: "pkg/sql/security Scanner.ScanSQL(text)", quickBytes: 1 << 14, thoroughBytes: 1 << 18,
+		{name: "ScanSQL", doc: "pkg/sql/security Scanner.ScanSQL(text)", quickBytes: 1 << 16, thoroughBytes: 1 << 18,
 			prepare: func(sql string) (func() string, bool) {
 				return func() string { sink = security.NewScanner().ScanSQL(sql); return "ok" }, true
 			}},
-		{name: "TextScan", doc: "pkg/security Scanner.Scan(text)", quickBytes: 1 << 14, thoroughBytes: 1 << 18,
+		{name: "TextScan", doc: "pkg/security Scanner.Scan(text)", quickBytes: 1 << 16, thoroughBytes: 1 << 18,
 			prepare: func(sql string) (func() string, bool) {
 				return func() string { sink = textsec.NewScanner().Scan(sql); return "ok" }, true
 			}},
